@@ -191,6 +191,16 @@ Theorem C15_device_to_port_complete : forall ds port_cap out_cap s,
 Proof. exact e2e_quiescent. Qed.
 Print Assumptions C15_device_to_port_complete.
 
+(* before that, at every event boundary of a device (it has handed over everything of the events it has taken and nothing of it is
+   in flight), the port has received exactly the model's output for the prefix of the history processed so far - so every theorem
+   about the outputs of prefixes (C01 quiescence, C07 ...) holds at the port at those moments, whatever the other devices are doing *)
+Theorem C15_device_to_port_boundary : forall ds port_cap out_cap s k d c h,
+  reachable (estep port_cap out_cap) (einit ds) s -> nth_error (e_devs s) k = Some d -> nth_error ds k = Some (c, h) ->
+  at_boundary s k d ->
+  d_done d ++ d_todo d = h /\ d_state d = fst (run c (d_done d)) /\ at_port s k = all_midi (snd (run c (d_done d))).
+Proof. exact e2e_boundary. Qed.
+Print Assumptions C15_device_to_port_boundary.
+
 (* and that point is always reachable: a state that is not quiescent has an enabled step (the port reads; a blocked
    sender is blocked only while something is in flight) *)
 Theorem C15_pipeline_progress : forall ds port_cap out_cap s,
@@ -207,7 +217,7 @@ Definition e2e_cfg (ch : Z) : config :=
      actions := [(1, Panic)]; exitseq := []; cmode_of := CInterrupt;
      d_octave := 0%Z; d_semitone := 0%Z; d_channel := ch; d_mapping := 0%nat; d_velocity := 64%Z |}.
 Definition e2e_ds : list (config * list ev) :=
-  [(e2e_cfg 0%Z, [EKey 0 30 1%Z; EKey 0 31 1%Z; EKey 0 30 0%Z; EKey 0 1 1%Z; EKey 0 1 0%Z; EKey 0 31 0%Z]); (e2e_cfg 5%Z, [EKey 0 31 1%Z; EKey 0 30 1%Z; EKey 0 30 0%Z])].
+  [(e2e_cfg 1%Z, [EKey 0 30 1%Z; EKey 0 31 1%Z; EKey 0 30 0%Z; EKey 0 1 1%Z; EKey 0 1 0%Z; EKey 0 31 0%Z]); (e2e_cfg 5%Z, [EKey 0 31 1%Z; EKey 0 30 1%Z; EKey 0 30 0%Z])].
 Definition relay_first : list elabel :=
   [RelayL Deliver; RelayL (Move 0); RelayL (Move 1); DSend 0; DSend 1; DTake 0; DTake 1; DClose 0; DClose 1]%nat.
 Definition devices_first : list elabel :=
@@ -223,4 +233,18 @@ Proof.
   cbv zeta. split; [apply sched_reachable; constructor|]. split; [apply sched_reachable; constructor|].
   split; [apply quiescentb_sound; vm_compute; reflexivity|]. split; [apply quiescentb_sound; vm_compute; reflexivity|].
   vm_compute. repeat split; try reflexivity. discriminate.
+Qed.
+
+(* non-vacuity of the boundary theorem: 15 steps into the relay-first schedule device 0 has processed three of its six events,
+   handed everything over, nothing is in flight - and the port holds the three messages of those events *)
+Example C15_boundary_example :
+  let s := sched 16 8 relay_first 15 (einit e2e_ds) in
+  reachable (estep 16 8) (einit e2e_ds) s /\
+  match nth_error (e_devs s) 0 with
+  | Some d => at_boundary s 0 d /\ length (d_done d) = 3%nat /\ length (d_todo d) = 3%nat /\
+              at_port s 0 = [[144; 60; 64]; [145; 62; 64]; [128; 60; 0]]
+  | None => False
+  end.
+Proof.
+  cbv zeta. split; [apply sched_reachable; constructor|]. vm_compute. repeat split; reflexivity.
 Qed.
